@@ -152,7 +152,8 @@ def extra(tier, seed):
                           bound=f'4 variants x all configurations x labellings {{1,2,3}},{{3,7,10}},{{5,0,2}} x {draws} Gumbel draws x budgets '
                                 f'0.5/5/50: consumptions >= 0, budget exhausted, outside good consumed, KKT residual <= 1e-6, >= SLSQP '
                                 f'brute force on {brute} draws, identical under relabelling; sample test of the ASSUMED contracts of '
-                                f'identification_chosen_alternatives / optimal_consumption on every forecast', timeout=1500))
+                                f'identification_chosen_alternatives / optimal_consumption on every forecast; histories per model: a second observation in a '
+                                f'one-row database of the same name, the first observation again, new estimation results then the same observation object', timeout=1500))
     out.append(run_native('C18:bounded:init-label-position-maps', 'c18_init.py', [str(10 if quick else 200), str(seed)],
                           bound='3 + N random label sets (2..6 integers in [-50,200]), every position of the outside good: '
                                 'key_to_index o index_to_key = id, one outside good, malformed inputs rejected'))
